@@ -61,10 +61,14 @@ impl Shape {
     }
 
     pub(crate) fn strides(&self) -> Strides {
-        let mut strides = vec![1; self.len()];
+        let mut strides = vec![1usize; self.len()];
 
         for (i, v) in self.iter().enumerate().skip(1).rev() {
-            strides.iter_mut().take(i).for_each(|stride| *stride *= v)
+            // Saturate: strides can only overflow for shapes with an empty axis, which hold no data
+            strides
+                .iter_mut()
+                .take(i)
+                .for_each(|stride| *stride = stride.saturating_mul(*v))
         }
 
         Strides(strides)
